@@ -12,7 +12,7 @@ from .core import BIN, goenv
 
 GENRUN = os.path.join(BIN, "genrun")
 
-FLAG_CYCLE = [[], ["-errors"], ["-security"], ["-errors", "-security"], ["-nested-inline"]]
+FLAG_CYCLE = [[], ["-errors"], ["-security"], ["-errors", "-security", "-risky-names"], ["-nested-inline"], ["-risky-names"], ["-errors", "-risky-names"]]
 
 
 def flags_for(index, allow_nested=True):
@@ -20,6 +20,19 @@ def flags_for(index, allow_nested=True):
     if not allow_nested and "-nested-inline" in f:
         return []
     return f
+
+
+def risky_name(design):
+    """The attribute name of the design that generated code may collide with, if any."""
+    d = design if isinstance(design, dict) else json.loads(design)
+    names = set(__import__("re").findall(r'"name": ?"(\w+)"', json.dumps(d)))
+    hit = [n for n in RISKY if n in names]
+    return hit[0] if hit else None
+
+
+RISKY = ["v", "c", "p", "err", "body", "res", "ctx", "req", "resp", "w", "r", "e", "ok", "s", "mux", "enc", "dec", "val", "key", "i",
+         "strconv", "fmt", "http", "goa", "view", "result", "payload", "string", "int", "error", "nil", "true", "new", "make", "range",
+         "func", "map", "var", "package", "select", "default", "interface"]
 
 
 def make_design(seed, index, flags):
